@@ -313,6 +313,15 @@ class B:
     def asq(a):
         return Q(_ite(a.c, ONE, ZERO))
 
+    def __sub__(a, b):
+        return a.asq() - b
+
+    def __rsub__(a, b):
+        return Q.of(b) - a.asq()
+
+    def __neg__(a):
+        return -a.asq()
+
     def __eq__(a, b):
         return B(a.c == B.of(b).c)
 
